@@ -231,6 +231,20 @@ class C06(HistoryProperty):
                 nodes.append({"k": "apply", "src": f"g{k + 4}", "fn": {"t": "fn", "name": "chf3"}, "via": "rshift", "id": f"g{k + 5}"})
             spec["nodes"] += nodes
             spec["roots"] = spec["roots"] + [nodes[-1]["id"], f"g{k + 4}"]
+        if rng.random() < 0.3:
+            # a case-when whose FIRST case matches and whose later case has a condition backed by a dataset
+            k = len(spec["nodes"]) + 10
+            match = rng.choice(["a", 1, None])
+            spec["nodes"] += [
+                {"k": "opt", "key": "M", "default": {"t": "const", "v": match}, "id": f"h{k}"},
+                {"k": "dataset", "name": "CONDP", "args": {}, "cache": rng.choice(["nocache", "default"]), "id": f"h{k + 1}"},
+                {"k": "val", "v": 1, "id": f"h{k + 2}"},
+                {"k": "dataset", "name": "LATERRES", "args": {}, "id": f"h{k + 3}"},
+                {"k": "case", "dispatch": f"h{k}", "cases": [[{"t": "eq", "v": match}, f"h{k + 2}"], [{"t": "param", "n": f"h{k + 1}"}, f"h{k + 3}"]],
+                 "default": rng.choice([None, f"h{k + 2}"]), "id": f"h{k + 4}"},
+                {"k": "dataset", "name": "OVERCASE", "args": {"a": f"h{k + 4}"}, "id": f"h{k + 5}"},
+            ]
+            spec["roots"] = spec["roots"] + [f"h{k + 4}", f"h{k + 5}"]
         inner = [n["id"] for n in spec["nodes"] if n["k"] in ("coalesce", "switch", "case", "bind")]
         applies = [n["id"] for n in spec["nodes"] if n["k"] == "apply" and gen._fn_children(n["fn"])]
         spec["roots"] = list(dict.fromkeys(spec["roots"] + rng.sample(inner, min(len(inner), rng.randint(0, 2))) + rng.sample(applies, min(len(applies), 2))))
